@@ -27,7 +27,8 @@ EXPLANATION = (
     ' (R12) lock ages use UTC-aware clocks (C20.R11); (R13) release() lets go on every path past its guard, exception edges included; (R14) the polling provider deletes an expired lock only when BOTH LastModified and ETag of the second HEAD equal the first (separately, or as one tuple / NamedTuple built the same way); R3/R4/R5 look through helpers returning the PUT response and through boolean record fields carrying `content == lock_id`.'
     " R10 holds on EVERY way the provider's path argument gets its value."
     " R2: one clock per deadline test, monotonic for the local lock; R5: fallback mode is claimed only after an O_EXCL create, release() clears the held flag; R10: the provider path IS the resolver's result; R11: age = time.time() - mtime."
-    " (R15) timeouts / leases are never defaulted or tested by truthiness (timeout 0 stays 0); (R16) lock ages use total_seconds(), never timedelta.seconds alone; R3 checks the lease test's units (timedelta(seconds=lease) vs timedelta(lease)); R5 requires EVERY path to the release DELETE to pass the read-back-equal edge; R8 accepts a dataclass field(default_factory=uuid4...) owner token.")
+    " (R15) timeouts / leases are never defaulted or tested by truthiness (timeout 0 stays 0); (R16) lock ages use total_seconds(), never timedelta.seconds alone; R3 checks the lease test's units (timedelta(seconds=lease) vs timedelta(lease)); R5 requires EVERY path to the release DELETE to pass the read-back-equal edge; R8 accepts a dataclass field(default_factory=uuid4...) owner token."
+    " R3 reads a shared lease-age helper that answers `age if age > lease else None` (None-correlation with the caller's test); R5 decides 'unlink only in O_EXCL fallback mode' by scenario over the two module flags when the mode is derived instead of tracked.")
 NOT_DECIDED = "kernel / S3 semantics, interleavings, numeric timeout bounds"
 
 
